@@ -25,6 +25,7 @@ type Report struct {
 	tLoad      float64
 	tGen       float64
 	verbose    bool
+	notRun     int
 }
 
 var baseAssumptions = []string{
@@ -179,6 +180,7 @@ func (r *Report) finish(cfg *solverCfg) int {
 		"coverage": map[string]any{
 			"obligations":               len(r.all) - nBounded,
 			"discharged":                nOK + nKnown - nBoundedOK,
+			"not_run_after_failure":     r.notRun,
 			"bounded_obligations":       nBounded,
 			"bounded_discharged":        nBoundedOK,
 			"bounds":                    bounds,
